@@ -339,15 +339,16 @@ class World(object):
         elif k == 'coop':
             pass                      # marker: from here on the environment is cooperative
         elif k == 'stop':
-            self.rest('GET', 'manual-stop')
+            self.rest('GET', 'manual-stop', peer=ev.get('peer'))
         elif k == 'start':
-            self.rest('GET', 'manual-start')
+            self.rest('GET', 'manual-start', peer=ev.get('peer'))
         elif k == 'rest':
             self.rest(ev['method'], ev['rule'], cred=ev.get('cred', 'good'), body=ev.get('body'), query=ev.get('query'))
         else:
             raise ValueError(k)
 
-    def rest(self, method, rule, cred='good', body=None, query=None):
+    def rest(self, method, rule, cred='good', body=None, query=None, peer=None):
+        """`peer`: how the operator writes the peer's address in the URL (default: as configured)"""
         hdr = {}
         if cred == 'good':
             hdr = dict(self.auth)
@@ -374,7 +375,7 @@ class World(object):
         elif cred == 'nocolon':
             import base64
             hdr = {'Authorization': 'Basic ' + base64.b64encode(self.cfg['user'].encode()).decode()}
-        url = '/v1/peer/%s/%s' % (PEER, rule)
+        url = '/v1/peer/%s/%s' % (peer or PEER, rule)
         kw = {}
         if body is not None:
             kw['json'] = body
